@@ -207,6 +207,7 @@ REVERTS = [
     ("F13", "fix: ordered.Unmarshal keeps field warnings", ["C13"]),
     ("F15", "fix: a group step that contains an unknown step", ["C15", "C08"]),
     ("F16", "fix: a matrix without dimensions signs", ["C02"]),
+    ("F17", "fix: an adjustment that names no dimension", ["C02", "C09"]),
 ]
 
 
